@@ -6,6 +6,7 @@
 From Coq Require Import ZArith List Bool Arith.
 From MomoCommon Require Import GenPrelude.
 From C20 Require Import PoolAlloc PoolAllocProofs.
+From C20 Require PoolAssumptions.
 From C20 Require Gen_PoolAllocator Gen_MemPoolOps Gen_MemPoolNewBlock Gen_PoolAllocatorHandles.
 Import ListNotations.
 
@@ -363,9 +364,9 @@ Print Assumptions C20_pvNewBlock_success_effect.
    owner goes. *)
 Theorem C20_generated_handle_ops_are_model : forall cfg st h hd hs,
   (forall st1 ob, step cfg st (OpCopy h) = Ok (st1, ob) ->
-     Z.of_nat (hpool (handles st1 (nhandles st))) = Gen_PoolAllocatorHandles.CopyCtor 0%Z (Z.of_nat (hpool (handles st h)))) /\
+     Z.of_nat (hpool (handles st1 (nhandles st))) = Gen_PoolAllocatorHandles.CopyCtor 0%Z (Z.of_nat (hpool (handles st h))) 0%Z) /\
   (forall st1 ob, step cfg st (OpMove h) = Ok (st1, ob) ->
-     Z.of_nat (hpool (handles st1 (nhandles st))) = Gen_PoolAllocatorHandles.CopyCtor 0%Z (Z.of_nat (hpool (handles st h)))) /\
+     Z.of_nat (hpool (handles st1 (nhandles st))) = Gen_PoolAllocatorHandles.CopyCtor 0%Z (Z.of_nat (hpool (handles st h))) 0%Z) /\
   (forall st1 ob, step cfg st (OpAssign hd hs) = Ok (st1, ob) ->
      (tt, Z.of_nat (hpool (handles st1 hd))) = Gen_PoolAllocatorHandles.Assign (Z.of_nat (hpool (handles st hd))) (Z.of_nat (hpool (handles st hs)))).
 Proof. exact gen_handle_ops_refine. Qed.
@@ -378,6 +379,77 @@ Theorem C20_pool_alive_iff_owned : forall cfg ops st' obs, good cfg true init op
     prefs (pools st' p) = sumn (nhandles st') (fun h => owns p (handles st' h)).
 Proof. exact pool_alive_iff_owned. Qed.
 Print Assumptions C20_pool_alive_iff_owned.
+
+(* THE EXACT BOUNDARY OF THE KNOWN FINDING `shared-pool-misroute`.  For a protocol-respecting deallocate of a live block whose
+   tag tells the truth (implied by the invariant), the decision - which is the GENERATED deallocate - returns the block to its
+   origin IF AND ONLY IF it is not a single-object block that had to be taken from raw memory and now meets a pool that has the
+   parameters of its value type.  Hence "no raw single-object block is deallocated while the pool has its parameters" is the
+   weakest client hypothesis excluding misrouting: every hypothesis admitting one such deallocation admits a misrouted block. *)
+Theorem C20_misroute_exact_boundary : forall cfg st h b n s,
+  proto_ok cfg st (OpDealloc h b n s) = true -> well_tagged cfg st (blocks st b) ->
+  (tag_eqb (btag (blocks st b)) (decided_tag cfg st h n) = true <-> ~ raw_single_in_matching_pool cfg st h b n).
+Proof. exact misroute_exact_boundary. Qed.
+Print Assumptions C20_misroute_exact_boundary.
+
+(* ... a raw single-object block comes into existence exactly when a single-object request meets a BUSY pool of other
+   parameters, i.e. exactly when H (no_size_sharing) is violated at that request (decision = the GENERATED allocate) ... *)
+Theorem C20_raw_single_created_iff : forall cfg vt P sz,
+  alloc_decision cfg vt P 1 = ARaw sz <->
+  (params_eqb (get_params cfg vt) (pparams P) = false /\ pcount P <> 0%nat /\ sz = (1 * vsize vt)%Z).
+Proof. exact raw_single_created_iff. Qed.
+Print Assumptions C20_raw_single_created_iff.
+
+(* ... so H is SUFFICIENT (under the invariant it maintains, the dangerous deallocation cannot occur) ... *)
+Theorem C20_H_excludes_the_danger : forall cfg st h b n s, inv cfg st -> proto_ok cfg st (OpDealloc h b n s) = true ->
+  ~ raw_single_in_matching_pool cfg st h b n.
+Proof. exact H_excludes_the_danger. Qed.
+Print Assumptions C20_H_excludes_the_danger.
+
+(* ... but NOT NECESSARY: two node sizes on one pool, H violated, yet the raw block is given back while the pool still has the
+   other parameters - all ten operations run, every deallocation is routed correctly, nothing is left outstanding. *)
+Theorem C20_H_not_necessary :
+  good cfg_default false init benign_sharing_ops = true /\ good cfg_default true init benign_sharing_ops = false /\
+  forallb (fun x => snd x) (routing benign_sharing_ops) = true /\ length (routing benign_sharing_ops) = 10%nat /\
+  match run cfg_default init benign_sharing_ops with Ok (st, _) => outstanding st | _ => 1%nat end = 0%nat.
+Proof. exact H_not_necessary. Qed.
+Print Assumptions C20_H_not_necessary.
+
+(* The remaining constructors are GENERATED: the rebinding conversion builds the new allocator from this allocator's pool
+   pointer (through the protected shared_ptr constructor); the explicit constructor points to what allocate_shared made from
+   (base allocator, own parameters, memory manager of the base allocator); the model's OpRebind / OpNew do exactly that.
+   (The destructor is `= default`: no code; shared_ptr release is library semantics, see C20_pool_alive_iff_owned.) *)
+Theorem C20_generated_ctor_ops_are_model : forall cfg st h vt,
+  (forall st1 ob, step cfg st (OpRebind h vt) = Ok (st1, ob) ->
+     Z.of_nat (hpool (handles st1 (nhandles st))) =
+       Gen_PoolAllocatorHandles.SharedCtor 0%Z 0%Z (Gen_PoolAllocatorHandles.RebindConversion (Z.of_nat (hpool (handles st h))) 0%Z)) /\
+  (forall npo myP own src alloc, Gen_PoolAllocatorHandles.ExplicitCtor npo myP own src alloc = npo alloc myP alloc) /\
+  (forall st1 ob, step cfg st (OpNew vt) = Ok (st1, ob) ->
+     hpool (handles st1 (nhandles st)) = npools st /\ npools st1 = S (npools st) /\
+     pools st1 (npools st) = mkPool (get_params cfg vt) 0 1 0 true /\ cached st1 (npools st) = cached st (npools st)).
+Proof. exact gen_ctor_ops_refine. Qed.
+Print Assumptions C20_generated_ctor_ops_are_model.
+
+(* What the model assumes about the buffer layer (PoolAssumptions.v, each assumption with the C09 theorem discharging it): if a
+   pool call never returns a buffer the pool does not hold, the reported base deallocations are exactly the observed ones; the
+   last owner's release returns every held buffer plus the control block. *)
+Theorem C20_dealloc_frees_is_annotation : forall cfg st h b n shrink st' ob,
+  step cfg st (OpDealloc h b n shrink) = Ok (st', ob) ->
+  (shrink <= pheld (pools st (hpool (handles st h))))%nat ->
+  match dealloc_decision cfg (hvt (handles st h)) (pools st (hpool (handles st h))) n with
+  | DPool => o_frees ob = (if use_cache cfg (pools st (hpool (handles st h))) &&
+                              negb (Z.leb (cached_free_block_count cfg) (Z.of_nat (cached st (hpool (handles st h)))))
+                           then 0 else shrink)%nat /\
+             (pheld (pools st' (hpool (handles st h))) + o_frees ob = pheld (pools st (hpool (handles st h))))%nat
+  | DRaw _ => o_frees ob = 1%nat /\ pools st' = pools st
+  end.
+Proof. exact PoolAssumptions.dealloc_frees_is_annotation. Qed.
+Print Assumptions C20_dealloc_frees_is_annotation.
+
+Theorem C20_last_release_returns_all : forall st p st' fr,
+  release st p = Ok (st', fr) -> prefs (pools st p) = 1%nat ->
+  fr = S (pheld (pools st p)) /\ pheld (pools st' p) = 0%nat /\ palive (pools st' p) = false.
+Proof. exact PoolAssumptions.last_release_returns_all. Qed.
+Print Assumptions C20_last_release_returns_all.
 
 (* The invariant used above is not vacuous: it holds initially and is preserved by every protocol- and
    H-respecting operation (which never gets stuck, routes correctly and balances the base allocator). *)
